@@ -24,3 +24,42 @@ var (
 )
 
 func level(t int) int { return t % 4 }
+
+// The lifted values handed to the combinators come from three origins (Step.Org, carried in the tag as org*1000+step):
+//
+//	0  duct.L2[A, B](step) / duct.L1[A](step) at the step's own type parameters
+//	1  a value lifted at OTHER type parameters and re-typed by a plain Go conversion (F and T are structs over `any`)
+//	2  the zero value of duct.F[A, B] / duct.T[A] (payload nil)
+//
+// In all three the type names recorded in the AST are those of the type parameters of the step.
+func mkF[A, B any](enc int) duct.F[A, B] {
+	switch org, step := enc/1000, enc%1000; org {
+	case 1:
+		return duct.F[A, B](duct.L2[string, []bool](step))
+	case 2:
+		var f duct.F[A, B]
+		return f
+	default:
+		return duct.L2[A, B](step)
+	}
+}
+
+func mkT[A any](enc int) duct.T[A] {
+	switch org, step := enc/1000, enc%1000; org {
+	case 1:
+		return duct.T[A](duct.L1[[]string](step))
+	case 2:
+		var t duct.T[A]
+		return t
+	default:
+		return duct.L1[A](step)
+	}
+}
+
+// payload the visitor must see for a step of the given origin
+func payloadTag(step, org int) int {
+	if org == 2 {
+		return -999
+	}
+	return step
+}
